@@ -105,6 +105,11 @@ func (c *Card) UnmarshalJSON(bytes []byte) error {
 	c.PIN = card.PIN
 
 	for _, i := range []uint8{1, 2, 3, 4} {
+		// ... a door permission is a single byte: anything else is not a (truncated) permission
+		if v := card.Doors[i]; v < 0 || v > 255 {
+			return fmt.Errorf("invalid door %v permission (%v)", i, v)
+		}
+
 		c.Doors[i] = uint8(card.Doors[i])
 	}
 
